@@ -544,3 +544,37 @@ def identity_table(R, ctx, rid):
             ok = all(got.get(f) == e for f, e in want.items())
             R.ob(rid, fn, "stores", ok, "stores %s" % {f: got.get(f) for f in want} if ok else "stores %s — expected %s" % ({f: got.get(f) for f in want}, want))
     R.floor(rid, "accessors in the identity table", n, 12)
+
+
+def state_vector_ops(R, ctx, rid):
+    Y = ctx.yrs
+    SV = "yrs::state_vector::StateVector"
+    R.rule(rid, "R-TABLE the state-vector updaters do what their names say: set_min stores min(stored, clock) (clock itself for a new "
+                "client), set_max stores max(stored, clock), inc_by stores stored + delta, merge stores max(stored, other's clock) "
+                "for every entry of the other vector — the rules about WHICH updater a call site must use (C02.b2: the "
+                "missing-dependency vector is only ever lowered) rest on these bodies")
+    want = {"set_min": ("min", "clock"), "set_max": ("max", "clock"), "inc_by": ("Add", "delta"), "merge": ("max", None)}
+    n = 0
+    for meth, (op, param) in sorted(want.items()):
+        fn = Y.fn("%s::%s" % (SV, meth))
+        v = FnView(fn)
+        stores = [(i, st) for i, j, st in fn.stmts() if isinstance(st["dst"], dict) and st["dst"].get("p") == ["*"] and str(fn.local_ty(st["dst"]["l"])).startswith("&mut u32")]
+        n += 1
+        ok = bool(stores)
+        got = []
+        for i, st in stores:
+            t = simp_deep(v.terms.rvalue(st["rv"], 10))
+            while t[0] == "field" and t[1] == "tuple.0":
+                t = simp_deep(t[2])
+            if op in ("min", "max"):
+                good = t[0] == "call" and re.search(r"::%s$" % op, t[1]) is not None and len(t[2]) == 2
+                if good and param:
+                    good = any(simp_deep(a)[0] == "param" and simp_deep(a)[2] == param for a in t[2])
+                if good:
+                    good = any(term_has_call(a, "re:(entry|or_default|into_mut|get_mut|or_insert)") for a in t[2])
+            else:
+                good = t[0] == "bin" and t[1].replace("WithOverflow", "") == "Add" and any(simp_deep(a)[0] == "param" and simp_deep(a)[2] == param for a in (t[2], t[3]))
+            got.append(sshow(t, 5))
+            ok = ok and good
+        R.ob(rid, fn, "stores-" + op, ok, "%s stores %s" % (meth, got) if ok else "%s stores %s — expected %s of the stored value and %s" % (meth, got, op, param or "the other vector's clock"))
+    R.floor(rid, "state-vector updaters", n, 4)
